@@ -361,7 +361,7 @@ def sharing_probes(rng):
 
 class C09(Check):
     pid = "C09"
-    props = ["C09_reads.v", "C09_stores.v", "C09_creates.v"]
+    props = ["C09_reads.v", "C09_stores.v", "C09_creates.v", "C09_incdec.v"]
     rule = ("random documents x sequences of 1-12 statements (stores of scalars and fresh containers, compound assignments, prefix / "
             "postfix ++ and --, reads) over paths of depth 0-4 rooted at $ and at set, unset, scalar and null variables, with "
             "indices in range / at the length / past the end / negative / before the start / fractional and string or numeric keys "
